@@ -671,7 +671,6 @@ type ygClient struct {
 	next   int    // controller side: next operation to start
 	state  ygWord // ygIdle / ygParked / ygDone (written by the client, read by the controller)
 	point  ygWord // index into ygPoints of the park point, or ygLockBase+k for "lock#k"
-	goid   ygWord // goroutine id of the client (other goroutines of the program under test also reach Yield)
 	cur    int    // client side: operation being executed
 	parked map[string]bool
 	locks  int // client side: instrumented lock acquisitions seen in the current operation
@@ -682,19 +681,34 @@ type ygClient struct {
 // in ygClient.point.
 const ygLockBase = 1000
 
-// ygGoid returns the current goroutine's id (parsed from the stack header; no shared state is touched).
-func ygGoid() uint64 {
-	var buf [64]byte
-	n := runtime.Stack(buf[:], false)
-	// "goroutine 123 ["
-	var id uint64
-	for _, c := range buf[len("goroutine "):n] {
-		if c < '0' || c > '9' {
-			break
-		}
-		id = id*10 + uint64(c-'0')
+// ygOnHandlerGoroutine tells whether the caller runs below the receiver's upload handler (the request goroutine
+// of a serialized client operation) rather than on a channel goroutine. Only the goroutine's own stack is read.
+func ygOnHandlerGoroutine() bool {
+	buf := make([]byte, 32<<10)
+	n := runtime.Stack(buf, false)
+	return bytes.Contains(buf[:n], []byte(").SegmentHandlerFunc("))
+}
+
+// ygCurrent is the runner that receives the yields of the program under test. The hook variable of the
+// receiver package is set once per process (channel goroutines read it at any time); which runner is current
+// is kept in a race-invisible word.
+var (
+	ygCurrent     *ygRunner
+	ygInstallOnce sync.Once
+)
+
+//go:norace
+//go:noinline
+func ygSetCurrent(r *ygRunner) { ygCurrent = r }
+
+//go:norace
+//go:noinline
+func ygGetCurrent() *ygRunner { return ygCurrent }
+
+func ygDispatch(point string) {
+	if r := ygGetCurrent(); r != nil {
+		r.Yield(point)
 	}
-	return id
 }
 
 var ygPoints = []string{"receiver.channel-miss", "receiver.stream-miss"}
@@ -734,7 +748,6 @@ func (r *ygRunner) Start() {
 		r.wg.Add(1)
 		go func() {
 			defer r.wg.Done()
-			cl.goid.store(ygGoid())
 			for i := range cl.ops {
 				r.wait(&r.turn, uint64(ci+1), time.Time{})
 				cl.cur = i
@@ -759,8 +772,8 @@ func (r *ygRunner) Yield(point string) {
 		return // not inside a serialized operation
 	}
 	cl := r.clients[t-1]
-	if cl.goid.load() != ygGoid() {
-		return // another goroutine of the program under test (e.g. a channel goroutine)
+	if !ygOnHandlerGoroutine() {
+		return // another goroutine of the program under test (a channel goroutine)
 	}
 	op := cl.ops[cl.cur]
 	switch point {
